@@ -1395,6 +1395,13 @@ Proof.
   reflexivity.
 Qed.
 
+Lemma orth_take_spec : forall shape pos (flat : list B),
+  length (orth_take d shape pos flat) = prod (map (@length nat) pos) /\
+  forall ks, in_shape ks (map (@length nat) pos) ->
+    nth_error (orth_take d shape pos flat) (ravel (map (@length nat) pos) ks)
+    = Some (nth (ravel shape (pick pos ks)) flat d).
+Proof. intros. split; [apply orth_take_length|intros; apply orth_take_nth; assumption]. Qed.
+
 (* a 2-d array flattened in C order *)
 Lemma nth_concat_2d : forall w (u : list (list B)) i j,
   Forall (fun r => length r = w) u -> (j < w)%nat ->
